@@ -2,8 +2,12 @@
 package props
 
 import (
+	"crypto/rsa"
+	"crypto/x509"
 	"encoding/json"
+	"encoding/pem"
 	"fmt"
+	jose "github.com/go-jose/go-jose/v4"
 	oidccrypto "github.com/zitadel/oidc/v3/pkg/crypto"
 	"slices"
 	"sort"
@@ -97,3 +101,12 @@ func audList(v any) []string {
 func jsonUnmarshal(s string, v any) error { return json.Unmarshal([]byte(s), v) }
 
 func encryptAES(plain, key string) (string, error) { return oidccrypto.EncryptAES(plain, key) }
+
+// rsaPEM encodes the RSA private key of a fixture JWK as PKCS#1 PEM (what the client helpers take).
+func rsaPEM(k jose.JSONWebKey) []byte {
+	priv, ok := k.Key.(*rsa.PrivateKey)
+	if !ok {
+		return nil
+	}
+	return pem.EncodeToMemory(&pem.Block{Type: "RSA PRIVATE KEY", Bytes: x509.MarshalPKCS1PrivateKey(priv)})
+}
